@@ -228,6 +228,38 @@ func gQuorumJoint(c *Check) {
 			c.Result(ok, rule+".users", "receiver of JointConfig."+fn.Name(), fnName(cs.Caller), site, "the whole joint Voters value (never one half)", detail)
 		}
 	}
+	// the tracker's quorum deciders all go through the joint configuration
+	for _, d := range []struct {
+		name string
+		via  *ssa.Function
+	}{{"QuorumActive", jvr}, {"Committed", jci}} {
+		fn := p.Method("tracker", "ProgressTracker", d.name)
+		if fn == nil {
+			continue
+		}
+		dfi := p.Info(fn)
+		for _, ret := range returnsOf(dfi) {
+			v := dfi.RetSym(ret, 0)
+			ok := false
+			v.Walk(func(x *Sym) {
+				if x.K == KCall && x.Fn == d.via && len(x.Args) > 0 && x.Args[0].K == KField && x.Args[0].Fld == votersF {
+					ok = true
+				}
+			})
+			c.Result(ok, rule+".deciders", "ProgressTracker."+d.name+" result", fnName(fn), p.site(ret), "decided by JointConfig."+d.via.Name()+" over the whole Voters value on every return", sanitizeKey(v.Key()))
+		}
+	}
+	if isSingleton := p.Method("tracker", "ProgressTracker", "IsSingleton"); isSingleton != nil {
+		ifi := p.Info(isSingleton)
+		pt := ifi.Sym(isSingleton.Params[0])
+		v := FieldOf(FieldOf(pt, p.Field("tracker", "ProgressTracker", "Config")), votersF)
+		spec := bfAnd(bfCmp(&Sym{K: KBuiltin, Name: "len", Args: []*Sym{indexSym(v, 0)}}, "==", constSym(1)),
+			bfCmp(&Sym{K: KBuiltin, Name: "len", Args: []*Sym{indexSym(v, 1)}}, "==", constSym(0)))
+		if code := p.ReturnFormula(isSingleton); code != nil {
+			ok, why := bfEquiv(code, spec)
+			c.Result(ok, rule+".deciders", "ProgressTracker.IsSingleton", fnName(isSingleton), p.Pos(isSingleton.Pos()), "len(Voters[0]) == 1 && len(Voters[1]) == 0 (a joint configuration is never a singleton)", code.String()+" "+why)
+		}
+	}
 }
 
 // ---- C12: parity evaluation of the quorum formulas ---------------------------
